@@ -247,10 +247,25 @@ fn compile<E: Entry>(
     ast: &ast::ScriptFile,
     ctx: &mut CompilerContext,
 ) -> Result<MissionMsg<E>, ErrorReported> {
+    // mission.msg has no scripts or functions.  Reject them up front; the passes below assume that
+    // anything with instructions in it has been assigned a language.
+    ast.items.iter().map(|item| match &item.value {
+        ast::Item::Meta { keyword: sp_pat!(ast::MetaKeyword::Entry), .. } => Ok(()),
+        ast::Item::ConstVar { .. } => Ok(()),
+        _ => Err(ctx.emitter.emit(error!(
+            message("feature not supported by format"),
+            primary(item, "not supported by mission.msg"),
+        ))),
+    }).collect_with_recovery::<()>()?;
+
     let ast = {
         let mut ast = ast.clone();
 
         // reduced set of passes because only compile-time stuff is possible
+        //
+        // (the language given here is never really used since there are no functions or scripts;
+        //  this pass is what diagnoses raw `ins_`/`REG[]` syntax inside const expressions)
+        crate::passes::resolution::assign_languages(&mut ast, crate::game::LanguageKey::Msg, ctx)?;
         crate::passes::resolution::resolve_names(&ast, ctx)?;
         crate::passes::type_check::run(&ast, ctx)?;
         crate::passes::evaluate_const_vars::run(ctx)?;
